@@ -61,10 +61,13 @@ def run_one(kind, name, props, tier="quick", runs=None, demo=True):
 def main():
     args = sys.argv[1:]
     only = [a for a in args if not a.startswith("-")]
+    sel = [a.split("=", 1)[1].split(",") for a in args if a.startswith("--props=")]
+    kinds = [a.split("=", 1)[1].split(",") for a in args if a.startswith("--kinds=")]
+    kinds = tuple(kinds[0]) if kinds else ("seeded", "classic", "quiet")
     allprops = "--all-props" in args
     tier = "thorough" if "--thorough" in args else "quick"
     results = []
-    for kind in ("seeded", "classic", "quiet"):
+    for kind in kinds:
         base = os.path.join(VERIF, kind)
         for name in sorted(os.listdir(base)) if os.path.isdir(base) else []:
             d = os.path.join(base, name)
@@ -75,16 +78,16 @@ def main():
             meta = {}
             if os.path.exists(os.path.join(d, "meta.json")):
                 meta = json.load(open(os.path.join(d, "meta.json")))
-            props = PROPS
-            res = run_one(kind, name, props, tier=tier)
+            props = tuple(sel[0]) if sel else PROPS
+            res = run_one(kind, name, props, tier=tier, demo=not sel)
             res["property"] = meta.get("property")
             if kind in ("seeded", "classic"):
-                res["detected_by"] = [p for p in PROPS if res.get(p, {}).get("exit") == 1]
+                res["detected_by"] = [p for p in props if res.get(p, {}).get("exit") == 1]
                 res["harness_errors"] = [p for p in PROPS if res.get(p, {}).get("exit") not in (0, 1)]
                 res["detected"] = bool(res["detected_by"])
                 verdict = ("DETECTED by " + ",".join(res["detected_by"])) if res["detected"] else "MISSED"
             else:
-                res["quiet"] = all(res.get(p, {}).get("exit") == 0 for p in PROPS)
+                res["quiet"] = all(res.get(p, {}).get("exit") == 0 for p in props)
                 verdict = "quiet" if res["quiet"] else "FALSE-ALARM"
             print(f"{kind}/{name}: {verdict} " + " ".join(f"{p}={res[p]['exit']}({res[p]['wall']}s,{res[p].get('violating_runs')}/{res[p].get('runs')})" for p in PROPS if p in res)
                   + (f" demo_exit={res.get('demo_exit_with_patch')}" if 'demo_exit_with_patch' in res else "")
@@ -93,6 +96,9 @@ def main():
                 for ln in (res.get(p, {}).get("lines") or [])[:2]:
                     print("     ", ln[:200])
             results.append(res)
+    if sel:   # partial run: print only, never overwrite the recorded matrix
+        bad = [r for r in results if r.get("detected") is False or r.get("quiet") is False or "error" in r]
+        sys.exit(1 if bad else 0)
     rdir = os.path.join(VERIF, "seeded", ".results" if tier == "quick" else ".results-thorough")
     os.makedirs(rdir, exist_ok=True)
     for r in results:  # one file per change: parallel invocations never write the same file
